@@ -205,6 +205,9 @@ typedef std::vector<std::vector<bool>> Rel;
 // a(r1..rk)->r with qi R ri.  States are 0..n-1.
 inline Rel naiveDown(const RTA& a, int n)
 {
+	// rules indexed by parent (the fixpoint itself stays the naive pair-deletion loop)
+	std::vector<std::vector<const RRule*>> byPar(n);
+	for (auto& t : a.rules) byPar[t.par].push_back(&t);
 	Rel R(n, std::vector<bool>(n, true)); bool ch = true;
 	while (ch)
 	{
@@ -212,13 +215,13 @@ inline Rel naiveDown(const RTA& a, int n)
 		for (int q = 0; q < n; ++q) for (int r = 0; r < n; ++r) if (R[q][r])
 		{
 			bool ok = true;
-			for (auto& t : a.rules) if (t.par == static_cast<St>(q))
+			for (const RRule* t : byPar[q])
 			{
 				bool ans = false;
-				for (auto& u : a.rules) if (u.par == static_cast<St>(r) && u.sym == t.sym && u.ch.size() == t.ch.size())
+				for (const RRule* u : byPar[r]) if (u->sym == t->sym && u->ch.size() == t->ch.size())
 				{
 					bool all = true;
-					for (size_t i = 0; i < t.ch.size(); ++i) if (!R[t.ch[i]][u.ch[i]]) { all = false; break; }
+					for (size_t i = 0; i < t->ch.size(); ++i) if (!R[t->ch[i]][u->ch[i]]) { all = false; break; }
 					if (all) { ans = true; break; }
 				}
 				if (!ans) { ok = false; break; }
@@ -234,6 +237,9 @@ inline Rel naiveDown(const RTA& a, int n)
 // related parent.
 inline Rel naiveUp(const RTA& a, int n)
 {
+	// occurrences indexed by child state: (rule, position)
+	std::vector<std::vector<std::pair<const RRule*, size_t>>> occ(n);
+	for (auto& t : a.rules) for (size_t i = 0; i < t.ch.size(); ++i) occ[t.ch[i]].push_back(std::make_pair(&t, i));
 	Rel R(n, std::vector<bool>(n, true));
 	for (int q = 0; q < n; ++q) for (int r = 0; r < n; ++r) if (a.fin.count(q) && !a.fin.count(r)) R[q][r] = false;
 	bool ch = true;
@@ -243,20 +249,18 @@ inline Rel naiveUp(const RTA& a, int n)
 		for (int q = 0; q < n; ++q) for (int r = 0; r < n; ++r) if (R[q][r])
 		{
 			bool ok = true;
-			for (auto& t : a.rules)
+			for (auto& to : occ[q])
 			{
-				for (size_t i = 0; i < t.ch.size() && ok; ++i) if (t.ch[i] == static_cast<St>(q))
+				const RRule* t = to.first; size_t i = to.second; bool ans = false;
+				for (auto& uo : occ[r]) if (uo.second == i)
 				{
-					bool ans = false;
-					for (auto& u : a.rules) if (u.sym == t.sym && u.ch.size() == t.ch.size() && u.ch[i] == static_cast<St>(r) && R[t.par][u.par])
-					{
-						bool same = true;
-						for (size_t j = 0; j < t.ch.size(); ++j) if (j != i && t.ch[j] != u.ch[j]) { same = false; break; }
-						if (same) { ans = true; break; }
-					}
-					if (!ans) ok = false;
+					const RRule* u = uo.first;
+					if (u->sym != t->sym || u->ch.size() != t->ch.size() || !R[t->par][u->par]) continue;
+					bool same = true;
+					for (size_t j = 0; j < t->ch.size(); ++j) if (j != i && t->ch[j] != u->ch[j]) { same = false; break; }
+					if (same) { ans = true; break; }
 				}
-				if (!ok) break;
+				if (!ans) { ok = false; break; }
 			}
 			if (!ok) { R[q][r] = false; ch = true; }
 		}
